@@ -136,6 +136,17 @@ theorem C09_scale_lines {s : Rat} (hs : 0 < s) (p : LAParams) (gs : List Glyph) 
     ∧ ∀ l, (scaleLine s l).isEmpty = l.isEmpty ∧ (scaleLine s l).text = l.text :=
   ⟨groupObjects_scale hs p gs, fun l => ⟨isEmpty_scale hs l, text_scale hs l⟩⟩
 
+/-- **Scale invariance of the neighbour relation.**  Which lines `find_neighbors` returns for a line
+(as a set of line numbers, through the grid index) is the same at every scale `s > 0`; only the ORDER in
+which they are listed can change (`C09_scale_cex`). -/
+theorem C09_scale_neighbours {s : Rat} (hs : 0 < s) (ratio : Rat) (hr : 0 ≤ ratio) (pageBB : BB) (hp : WfPage pageBB)
+    (lines : List Line) (hne : ∀ l ∈ lines, l.isEmpty = false) (l : Line) (hl : l ∈ lines) (j : Nat) :
+    j ∈ neighbors ratio (mkPlane (scaleBB s pageBB)
+          (((lines.map (scaleLine s)).zipIdx).map fun (x : Line × Nat) => x.1.pobj x.2))
+        (lines.map (scaleLine s)) (scaleLine s l)
+    ↔ j ∈ neighbors ratio (mkPlane pageBB (lines.zipIdx.map fun (x : Line × Nat) => x.1.pobj x.2)) lines l :=
+  neighbors_scale hs ratio hr pageBB hp lines hne l hl j
+
 /-- The full statement that is NOT true of the code (see `C09_scale_cex`). -/
 def C09_scale_statement : Prop :=
   ∀ (s : Rat), 0 < s → ∀ (p : LAParams) (pageBB : BB) (lines : List Line),
